@@ -255,6 +255,10 @@ def c10_subsequence(tr, origin, key, writer):
             w = ev[2]
             if w[0] == 'write' and w[1] == u and int(w[2]) == t:
                 written.append(w[3])
+            # a write by an application system in the middle of the writer's next frame (the generators
+            # issue at most one per frame and key, so the order written is the order of the script)
+            if w[0] == 'appcmd' and w[2] == 'insert' and w[3] == u and int(w[4]) == t:
+                written.append(w[5])
             if w[0] == 'spawn' and w[1] == u:
                 for tv in w[3:]:
                     tt, vv = tv.split(':')
